@@ -53,7 +53,8 @@ def menu(c: reg.Country, comp: str, salt: int, tier: str, other_w: int = 0) -> l
             items.append(conforming(c, comp, w - 1, salt))
     items += [conforming(c, comp, w + 1, salt), conforming(c, comp, w + 2, salt)]
     if other_w:
-        items.append(conforming(c, comp, w, salt) + "".join(DIG[(i + salt) % 10] for i in range(other_w)))
+        comb = conforming(c, comp, w, salt) + "".join(DIG[(i + salt) % 10] for i in range(other_w))
+        items += [comb, comb + "9", comb + "12"]  # combined width, and one / two beyond it
     if w >= 2:
         x = conforming(c, comp, w, salt + 1)
         items.append(x[:1] + " " + x[1:])
@@ -111,6 +112,8 @@ def judge(country: str, values: dict, via: str):
 
 
 def shard(args):
+    if args[0] == "sequence":
+        return sequence_shard(args)
     country, tier = args
     part = par.Part()
     c = reg.countries().get(country)
@@ -164,6 +167,46 @@ def shard(args):
     return part.done()
 
 
+def exact_values(code: str, salt: int = 0) -> dict:
+    c = reg.countries()[code]
+    vals = {}
+    for comp, ss in (("bank_code", 0), ("account_code", 4), ("branch_code", 7)):
+        w = gen.width(c, comp)
+        vals[comp] = conforming(c, comp, w, ss + salt) if w else ""
+    return vals
+
+
+def sequence_shard(args):
+    """All countries with positions generated one after the other in ONE process (sorted, reversed,
+    and grouped by identical structure string): what is remembered from one country must not leak
+    into the next (start from non-initial states)."""
+    _, order, tier = args
+    part = par.Part()
+    table = reg.countries()
+    codes = sorted(k for k, c in table.items() if c.positions)
+    if order == "reversed":
+        codes = codes[::-1]
+    elif order == "by-structure":
+        codes = sorted(codes, key=lambda k: (table[k].bban_spec, k))
+    elif order == "by-structure-reversed":
+        codes = sorted(codes, key=lambda k: (table[k].bban_spec, k), reverse=True)
+    for rnd in range(2):
+        for code in codes:
+            vals = exact_values(code, rnd)
+            short = {k: v[1:] if len(v) > 1 else v for k, v in vals.items()}
+            for v in (vals, short):
+                for via in ("generate", "components"):
+                    part.count((order, rnd, code, via, tuple(sorted(v.items()))))
+                    st, sig, exp, obs = judge(code, v, via)
+                    if st == "bad":
+                        part.violation(f"{sig} [in a sequence over all countries, order {order}]",
+                                       {"kind": "c08seq", "country": code, "values": v, "via": via,
+                                        "order": order}, exp, obs)
+    part.stat("country_sequences")
+    part.sample({"sequence_order": order, "first_countries": codes[:5]})
+    return part.done()
+
+
 def replay(case: dict) -> dict:
     st, sig, exp, obs = judge(case["country"], case["values"], case["via"])
     return {"ok": st != "bad", "signature": sig, "expected": exp, "observed": obs}
@@ -173,7 +216,8 @@ def main(tier: str) -> int:
     run = report.Run(PID, tier, "exploration", RULE)
     countries = sorted(reg.countries())
     extra = ["XX", "de", "D", "", "DEU", "ZZ"]
-    par.run_shards(run, shard, [(c, tier) for c in countries + extra])
+    seqs = [("sequence", o, tier) for o in ("sorted", "reversed", "by-structure", "by-structure-reversed")]
+    par.run_shards(run, shard, [(c, tier) for c in countries + extra] + seqs)
     run.extra.update({"countries": len(countries), "pseudo_countries": extra})
     run.assumptions += ["reference assembly mc/ref/gen.py over the tree's position table; national "
                         "digits from mc/ref/nat.py",
